@@ -29,7 +29,7 @@ func init() {
 		Assumptions: []string{"an error on an operation the model considers valid is not a violation (the statement constrains successes and failures, not which calls succeed); every (operation, path form) pair must have been observed to succeed at least once",
 			"sibling-type values (code for an enum-bound code, integer for positiveInt, id for a reference) may be normalised by the library: on success only the frame (everything but the target) and non-emptiness of the target are checked"},
 		Run:    runC18,
-		Checks: map[string]func(*core.Env, []json.RawMessage){"patch": replayC18, "seq": replayC18Seq, "codes": replayC18Codes},
+		Checks: map[string]func(*core.Env, []json.RawMessage){"patch": replayC18, "seq": replayC18Seq, "codes": replayC18Codes, "aliasing": replayC18Aliasing},
 		Threshold: func(m *core.Merged) []string {
 			var r []string
 			for _, op := range []string{"add", "insert", "delete", "replace"} {
@@ -45,7 +45,7 @@ func init() {
 					r = append(r, "path form never observed to succeed: "+f)
 				}
 			}
-			for _, k := range []string{"move", "delete-absent", "sequence", "class:choice", "class:code", "class:reference", "class:bundle-entry", "class:repeated", "class:scalar", "nil-value", "nil-resource", "wrong-type", "index-out-of-range", "duplicate-sibling", "code-patch"} {
+			for _, k := range []string{"move", "delete-absent", "sequence", "class:choice", "class:code", "class:reference", "class:bundle-entry", "class:repeated", "class:scalar", "nil-value", "nil-resource", "wrong-type", "index-out-of-range", "duplicate-sibling", "code-patch", "aliasing"} {
 				if m.Cover[k] == 0 {
 					r = append(r, "never observed: "+k)
 				}
@@ -954,6 +954,80 @@ func c18Fixed(env *core.Env, totality bool) {
 	}
 }
 
+// c18Aliasing: the value handed to the operation, or a message shared by two elements, is the same Go object as
+// something already in the resource. Only the targeted element changes; the supplied value is not modified.
+func c18Aliasing(env *core.Env) {
+	defer env.In("aliasing")()
+	env.Case()
+	env.Cover("aliasing")
+	run := func(name string, r fhir.Resource, f func() error, want func() fhir.Resource) {
+		var perr error
+		out := env.Guard("patch."+name, func() { perr = f() })
+		env.Eval(1)
+		if out.Panicked || out.Dead {
+			if !out.Dead {
+				env.Violatef("C18/panic@"+out.Site+"/"+core.NormMsg(out.PanicMsg), "patch.%s panicked: %s", name, out.PanicMsg)
+			}
+			return
+		}
+		if perr != nil {
+			return // refusing is allowed; then nothing may have changed (checked by the caller-specific want == before)
+		}
+		if w := want(); !proto.Equal(r, w) {
+			env.Violatef("C18/aliasing/"+name, "patch.%s returned nil; expected %s, observed %s", name, trunc(jsonOf(w), 300), trunc(jsonOf(r), 300))
+		}
+	}
+	// (1) replace an element by itself
+	{
+		p := gen.StdPatient()
+		want := proto.Clone(p).(fhir.Resource)
+		run("replace-by-itself", p, func() error { return patch.Replace(p, "Patient.name[0]", p.Name[0]) }, func() fhir.Resource { return want })
+		p2 := gen.StdPatient()
+		want2 := proto.Clone(p2).(fhir.Resource)
+		run("replace-scalar-by-itself", p2, func() error { return patch.Replace(p2, "Patient.birthDate", p2.BirthDate) }, func() fhir.Resource { return want2 })
+	}
+	// (2) one message object held by two elements: replacing / deleting one leaves the other
+	{
+		p := gen.StdPatient()
+		shared := &dtpb.Period{Start: &dtpb.DateTime{ValueUs: 1577836800000000, Timezone: "UTC", Precision: dtpb.DateTime_DAY}}
+		p.Name[0].Period, p.Name[1].Period = shared, shared
+		nv := &dtpb.Period{End: &dtpb.DateTime{ValueUs: 1609459200000000, Timezone: "UTC", Precision: dtpb.DateTime_DAY}}
+		want := proto.Clone(p).(*ppb.Patient)
+		want.Name[0].Period = proto.Clone(nv).(*dtpb.Period)
+		run("replace-shared-message", p, func() error { return patch.Replace(p, "Patient.name[0].period", nv) }, func() fhir.Resource { return want })
+		q := gen.StdPatient()
+		sh := &dtpb.String{Value: "Shared"}
+		q.Name[0].Given = []*dtpb.String{sh, {Value: "x"}}
+		q.Name[1].Given = []*dtpb.String{sh}
+		want3 := proto.Clone(q).(*ppb.Patient)
+		want3.Name[0].Given[0] = &dtpb.String{Value: "Other"}
+		run("replace-shared-list-item", q, func() error { return patch.Replace(q, "Patient.name[0].given[0]", &dtpb.String{Value: "Other"}) }, func() fhir.Resource { return want3 })
+	}
+	// (3) replace, then replace back with the object that was there before (kept by the caller)
+	{
+		p := gen.StdPatient()
+		orig := proto.Clone(p).(fhir.Resource)
+		old := p.Name[1]
+		if err := patch.Replace(p, "Patient.name[1]", &dtpb.HumanName{Family: &dtpb.String{Value: "Temp"}}); err == nil {
+			run("replace-back-with-kept-object", p, func() error { return patch.Replace(p, "Patient.name[1]", old) }, func() fhir.Resource { return orig })
+		}
+	}
+	// (4) the supplied value is not modified and later changes of it do not reach into the resource's other elements
+	{
+		p := gen.StdPatient()
+		v := &dtpb.HumanName{Family: &dtpb.String{Value: "V"}, Given: []*dtpb.String{{Value: "g"}}}
+		vb := protoBytes(v)
+		want := proto.Clone(p).(*ppb.Patient)
+		want.Name = append(want.Name, proto.Clone(v).(*dtpb.HumanName))
+		run("add-value-kept", p, func() error { return patch.Add(p, "Patient", "name", v, &patch.Options{}) }, func() fhir.Resource { return want })
+		if protoBytes(v) != vb {
+			env.Violatef("C18/aliasing/value-modified", "patch.Add modified the value it was given")
+		}
+	}
+}
+
+func replayC18Aliasing(env *core.Env, a []json.RawMessage) { c18Aliasing(env) }
+
 // sequences with inverse pairs return to the original JSON
 func c18Sequence(env *core.Env, tn string, seed uint64) {
 	defer env.In("seq", tn, seed)()
@@ -1187,6 +1261,10 @@ func runC18(env *core.Env) {
 		if env.Mine(n) {
 			c18Codes(env, rev)
 		}
+	}
+	n++
+	if env.Mine(n) {
+		c18Aliasing(env)
 	}
 	types := gen.ResourceTypes()
 	per := env.Size(1, 8)
